@@ -30,6 +30,7 @@ type RegexpObj struct {
 
 func registerMoreIntrinsics() {
 	registerReflect()
+	defer registerLibraryModels()
 	I := stdIntrinsics
 
 	// ---------------- math/rand: contract stubs ----------------
